@@ -489,9 +489,6 @@ def isbuiltintype(
 
 @compat.cache
 def isstdlibtype(obj: type) -> compat.TypeIs[type[STDLibtypeT]]:
-    if isoptionaltype(obj):
-        nargs = tp.get_args(obj)[:-1]
-        return all(isstdlibtype(a) for a in nargs)
     if isuniontype(obj):
         args = tp.get_args(obj)
         return all(isstdlibtype(a) for a in args)
